@@ -73,7 +73,8 @@ def run(ctx, ck) -> None:
         fn = cls.own['as_matrix']
         schema = SCHEMAS.get(cls.name)
         if schema is None:
-            ck.incomplete('L2', fn, f'{cls.name}.as_matrix matches no dense-form schema of the table', instance=cls.name)
+            if not _lazy_dense_by_evaluation(ctx, ck, cls, fn, generic.node):
+                ck.incomplete('L2', fn, f'{cls.name}.as_matrix matches no dense-form schema of the table', instance=cls.name)
             continue
         ok, why = schema(world, table, cls, fn)
         ck.expect('L2', ok, fn, why, f'{cls.name}.as_matrix does not have the dense form of its class: {why}', instance=cls.name)
@@ -90,8 +91,11 @@ def run(ctx, ck) -> None:
         if am is None or mv is None or not isinstance(am.node, ast.FunctionDef) or not isinstance(mv.node, ast.FunctionDef) or am.node is generic.node:
             continue
         me = am.node.args.args[0].arg
+        # helpers of the object that the dense form calls with arguments - except those that are handed a dense matrix
+        # (the result of another as_matrix()): they transform matrices, they do not place the operator's coefficients
         called = {n.func.attr for n in ast.walk(am.node) if isinstance(n, ast.Call) and isinstance(n.func, ast.Attribute) and isinstance(n.func.value, ast.Name)
-                  and n.func.value.id == me and (n.args or n.keywords)}
+                  and n.func.value.id == me and (n.args or n.keywords)
+                  and not any(isinstance(x, ast.Call) and isinstance(x.func, ast.Attribute) and x.func.attr == 'as_matrix' for a in list(n.args) + [k.value for k in n.keywords] for x in ast.walk(a))}
         used = {k: v for k, v in _self_closure(table, cls, am.node, depth=0).items() if k not in structural and k in called}
         if not used:
             continue
@@ -105,6 +109,52 @@ def run(ctx, ck) -> None:
 
     # ------------------------------------------------------------------ L3
     _generic_builder(ck, generic.node)
+
+
+def _lazy_dense_by_evaluation(ctx, ck, owner, fn, generic_fn) -> bool:
+    """A dense form written once for a family of lazy operators (a template with per-class hooks or class constants): it is
+    evaluated per concrete class with a symbolic operand matrix M, and must come out as inv(M) for the lazy inverses, M.T for
+    the lazy transposes (either for the orthogonal ones), or the generic column-by-column form.  Returns False when the class
+    is not of that family."""
+    from ..axinterp import Env, Func, Interp, Obj, Opaque, Raised, Sym, Undecided, UNK
+
+    world, table = ctx.world, ctx.table
+    inv_base = table.find(f'{CORE}.AbstractLazyInverseOperator')
+    tr_base = table.find(f'{CORE}.TransposeOperator')
+    if inv_base is None or tr_base is None:
+        return False
+    family = [k for k in table.operators() if (table.is_subclass(k, inv_base) or table.is_subclass(k, tr_base))
+              and (r := table.resolve(k, 'as_matrix')) is not None and r.node is fn]
+    if not family:
+        return False
+    for k in family:
+        it = Interp(world, table, budget=50_000)
+        it.symbolic = True
+        it.summaries[id(generic_fn)] = lambda args, kwargs: Sym('generic_dense_form')
+        me = Obj(k, {'operator': Opaque('operand')})
+        M = Sym('call', (Sym('.as_matrix', (Opaque('operand'),)),))
+        try:
+            res = it.call_function(Func(fn, Env(module_of(fn)), me, owner), [], {})
+        except (Raised, Undecided) as exc:
+            ck.incomplete('L2', fn, f'{k.name}.as_matrix (written in {owner.name}) could not be followed: {exc}', instance=k.name)
+            continue
+        is_inv = table.is_subclass(k, inv_base)
+        is_tr = table.is_subclass(k, tr_base)
+        accepted = [Sym('generic_dense_form')]
+        if is_inv:
+            accepted += [Sym(p, (M,)) for p in ('jnp.linalg.inv', 'jax.numpy.linalg.inv', 'numpy.linalg.inv', 'jax.scipy.linalg.inv')]
+        if is_tr:
+            accepted += [Sym('.T', (M,)), Sym('.mT', (M,)), Sym('jnp.transpose', (M,)), Sym('call', (Sym('.transpose', (M,)),))]
+        text = repr(res)
+        if res in accepted:
+            ck.ok('L2', fn, f'{k.name}.as_matrix (written in {owner.name}) evaluates to {text} for the operand matrix M', instance=k.name)
+        elif res is UNK or not isinstance(res, Sym):
+            ck.incomplete('L2', fn, f'{k.name}.as_matrix (written in {owner.name}) evaluates to something the evaluator cannot follow ({text[:80]})', instance=k.name)
+        elif 'conj' in text or text.endswith('.H'):
+            ck.bad('L2', fn, f'{k.name}.as_matrix evaluates to {text}: the conjugate transpose (adjoint) of the operand matrix, but mv of the lazy transpose is the plain transpose - they differ for complex coefficients', instance=k.name)
+        else:
+            ck.bad('L2', fn, f'{k.name}.as_matrix evaluates to {text}, which is neither ' + (' nor '.join((['the inverse'] if is_inv else []) + (['the transpose'] if is_tr else []))) + ' of the operand matrix nor the generic dense form', instance=k.name)
+    return True
 
 
 def _self_closure(table, cls, fn: ast.FunctionDef, depth: int = 6) -> dict:
